@@ -1081,7 +1081,9 @@ def trivia_shape_grid():
     ws_bodies = [L(" "), ("choice", [L(" "), L("\t")]), ("choice", [L(" "), ("id", "NEWLINE", None)]), ("seq", [L(" "), L("\t")]),
                  ("id", "blank", None)]
     cm_bodies = [L("#"), ("seq", [L("#"), ("id", "word", None)]), ("choice", [("id", "doc", None), L("#")]),
-                 ("seq", [L("#"), ("rep", ("range", "x", "y")), L("#")])]
+                 ("seq", [L("#"), ("rep", ("range", "x", "y")), L("#")]),
+                 # trivia inside trivia: the comment calls a non-atomic rule whose sequence skips trivia again
+                 ("seq", [L("#"), ("id", "note", None), L("#")])]
     out = []
     n = 0
     for ws in [None, *ws_bodies]:
@@ -1104,6 +1106,8 @@ def trivia_shape_grid():
                         rules["COMMENT"] = (cm_mod, cm)
                         if cm[0] == "choice":
                             rules["doc"] = ("", ("seq", [L("#"), L("#")]))
+                        if cm[0] == "seq" and ("id", "note", None) in cm[1]:
+                            rules["note"] = ("!", ("seq", [("id", "word", None), L("="), ("id", "word", None)]))
                     out.append(rules)
     return out
 
